@@ -71,6 +71,16 @@ def run_g11(chk, G11, repo):
     for n in walk_no_nested(pf.node):
         if isinstance(n, ast.Return) and n.value is not None:
             depth_of(n.value, {}, 'partitions')
+    # the element sequence handed to _partitions is the input in its own order
+    for n in walk_no_nested(pf.node):
+        if isinstance(n, ast.Assign) and isinstance(n.targets[0], ast.Name):
+            feeds = any(isinstance(c, ast.Call) and dotted(c.func) == '_partitions' and c.args
+                        and unparse(c.args[0]) == n.targets[0].id for c in ast.walk(pf.node))
+            if feeds:
+                bad = [c for c in ast.walk(n.value) if isinstance(c, ast.Call) and (dotted(c.func) or '') in REORDER]
+                chk.instance(G11, f'partitions(): `{unparse(n)}` keeps the input order: {not bad}')
+                for c in bad:
+                    viol.append(('partitions', c, f'{dotted(c.func)}() applied to the input elements'))
     chk.instance(G11, f'partitions(): helper functions analysed with argument depth: {sorted(seen)}')
     if not seen:
         raise AnalysisError('G11: the pipeline of partitions() was not recognised')
@@ -137,3 +147,37 @@ def run_g12(chk, G12, repo):
         chk.violation(G12, am.rel, g.qualname, 'category / repetition guards',
                       'a path may contain two features of one category or the same feature twice', line=g.node.lineno,
                       witness='ABSORPTION([FO,ZO]): a candidate ZO derived from the FO candidate')
+
+
+def run_g13(chk, G13, repo):
+    """set differences per key iterate over the keys of the minuend"""
+    pm = repo.module('pharmpy.tools.mfl.parse')
+    n = 0
+    for f in pm.functions.values():
+        for dc in [x for x in ast.walk(f.node) if isinstance(x, ast.DictComp)]:
+            gen = dc.generators[0]
+            if not (isinstance(gen.target, ast.Name) and isinstance(gen.iter, ast.Call)
+                    and isinstance(gen.iter.func, ast.Attribute) and gen.iter.func.attr == 'keys'):
+                continue
+            k = gen.target.id
+            it = unparse(gen.iter.func.value)
+            subs_ = [b for b in ast.walk(dc.value) if isinstance(b, ast.BinOp) and isinstance(b.op, ast.Sub)]
+            for b in subs_:
+                def base(e):
+                    for s_ in ast.walk(e):
+                        if isinstance(s_, ast.Subscript) and unparse(s_.slice) == k:
+                            return unparse(s_.value)
+                    return None
+                minuend, subtrahend = base(b.left), base(b.right)
+                if minuend is None or subtrahend is None:
+                    continue
+                n += 1
+                ok = it == minuend
+                chk.instance(G13, f'{f.name}: {{{k}: {unparse(b)[:50]} for {k} in {it}.keys()}}: keys of the minuend: {ok}')
+                if not ok:
+                    chk.violation(G13, pm.rel, f.name, unparse(dc)[:110],
+                                  f'"what `{minuend}` has and `{subtrahend}` has not" is computed only for the keys of `{it}`: keys '
+                                  f'that only `{minuend}` has are dropped', line=dc.lineno,
+                                  witness='TRANSITS(1) + TRANSITS(3,NODEPOT): the NODEPOT counts disappear; A + B != B + A')
+    if n < 2:
+        raise AnalysisError(f'G13: only {n} per-key set differences found in mfl/parse.py')
